@@ -62,6 +62,58 @@ pub struct SchedScenario {
     pub prog: SchedProg,
     pub total: u64,
     pub backends: Vec<Backend>,
+    /// samples per `LocalBufferDriver::play()` for the `vm_driver` backend
+    #[serde(default)]
+    pub driver_block: u32,
+}
+
+/// Where the frames come from: the simulator's own callback (it owns the sample clock), or the
+/// real `LocalBufferDriver` played block by block (the driver owns the clock and tells the
+/// scheduler worker the sample index).
+enum FrameSrc {
+    Sut(Box<Sut>),
+    Driver {
+        driver: Box<mimium_audiodriver::backends::local_buffer::LocalBufferDriver>,
+        och: usize,
+        pos: usize,
+        _ctx: mimium_lang::ExecContext,
+    },
+}
+
+impl FrameSrc {
+    fn start_driver(src: &str, block: usize) -> Result<FrameSrc, String> {
+        use mimium_audiodriver::backends::local_buffer::LocalBufferDriver;
+        use mimium_audiodriver::driver::{Driver, RuntimeData};
+        let mut driver = LocalBufferDriver::new(block.max(1));
+        let plug: Box<dyn mimium_lang::plugin::Plugin> = Box::new(driver.get_as_plugin());
+        let mut ctx = mimium_lang::ExecContext::new([plug].into_iter(), None, mimium_lang::Config::default());
+        ctx.add_system_plugin(mimium_scheduler::get_default_scheduler_plugin());
+        ctx.prepare_machine(src).map_err(|e| e.iter().map(|x| x.get_message()).collect::<Vec<_>>().join(" | "))?;
+        let _ = ctx.run_main();
+        let rt = RuntimeData::try_from(&mut ctx).map_err(|e| e.message)?;
+        let io = driver.init(rt, None).ok_or("no dsp / io channels")?;
+        Ok(FrameSrc::Driver { driver: Box::new(driver), och: io.output as usize, pos: usize::MAX, _ctx: ctx })
+    }
+    fn frame(&mut self, t: u64, out: &mut Vec<f64>) -> Result<i64, String> {
+        match self {
+            FrameSrc::Sut(s) => s.frame(t, &[], out),
+            FrameSrc::Driver { driver, och, pos, .. } => {
+                use mimium_audiodriver::driver::Driver;
+                let have = driver.get_generated_samples().len() / (*och).max(1);
+                if *pos >= have {
+                    crate::util::guarded(|| {
+                        driver.play();
+                    })?;
+                    *pos = 0;
+                }
+                let buf = driver.get_generated_samples();
+                out.clear();
+                out.extend_from_slice(&buf[*pos * *och..(*pos + 1) * *och]);
+                *pos += 1;
+                Ok(0)
+            }
+        }
+    }
 }
 
 fn tname(p: &SchedProg, i: usize) -> String {
@@ -349,12 +401,19 @@ pub fn run(sc: &SchedScenario) -> Vec<(Backend, RunResult)> {
     let opts = SutOptions {
         with_scheduler: true,
         sample_rate: 48000,
+        self_init_0: false,
     };
     let mut results = vec![];
     for &backend in &sc.backends {
         let mut res = RunResult::default();
-        let started = crate::util::guarded(|| Sut::start(backend, &src, None, &opts, RetireMode::Present))
-            .unwrap_or_else(|p| Err(format!("panic: {p}")));
+        let started = crate::util::guarded(|| {
+            if backend == Backend::VmDriver {
+                FrameSrc::start_driver(&src, sc.driver_block as usize)
+            } else {
+                Sut::start(backend, &src, None, &opts, RetireMode::Present).map(|s| FrameSrc::Sut(Box::new(s)))
+            }
+        })
+        .unwrap_or_else(|p| Err(format!("panic: {p}")));
         let mut sut = match started {
             Ok(s) => s,
             Err(e) => {
@@ -375,7 +434,7 @@ pub fn run(sc: &SchedScenario) -> Vec<(Backend, RunResult)> {
                 res.outcome = Some(Outcome::HarnessError("generator broke the hypothesis (time not in the future)".into()));
                 break;
             }
-            match sut.frame(t, &[], &mut out) {
+            match sut.frame(t, &mut out) {
                 Ok(rc) if rc >= 0 => {}
                 Ok(rc) => {
                     violation = Some(Outcome::Violation {
@@ -592,12 +651,18 @@ pub fn gen_c11(seed: u64) -> SchedScenario {
     let boxed_prelude = if r_cfg.chance(1, 3) { r_cfg.range(1, 3) as u32 } else { 0 };
     let prog = SchedProg { tasks, initials, trigs, mono, boxed_prelude };
     let total = fit_budget(&prog, total, 40_000, 1_500);
+    let mut r_drv = root.sub("driver");
+    let mut backends = vec![Backend::Vm, Backend::WasmP3];
+    if r_drv.chance(1, 2) {
+        backends.push(Backend::VmDriver);
+    }
     SchedScenario {
         prop: "C11".into(),
         seed,
         prog,
         total,
-        backends: vec![Backend::Vm, Backend::WasmP3],
+        backends,
+        driver_block: *r_drv.pick(&[1u32, 2, 3, 4, 7, 16, 64, 256, 4096]),
     }
 }
 
